@@ -24,6 +24,10 @@ expect() {
     C12d-*) echo "C12 C06" ;;
     C04d-*) echo "C04 C01" ;;
     C01d-*) echo "C01" ;;
+    C13e-*) echo "" ;; # outside the affordable bounds (DESIGN.md §9)
+    C04e-*) echo C17 ;;
+    C17e-*) echo "C17 C15" ;;
+    C05e-*) echo "C05 C16" ;;
     C19-retry-budget-off-by-one) echo "" ;; # deliberately not flagged (DESIGN.md §11)
     *) echo "${1:0:3}" ;;
   esac
